@@ -60,7 +60,7 @@ def run(ctx):
         # C05-13: a "restart" that backtracks further than the learnt clause's level leaves its asserted literal without its
         # premise), and a run that was interrupted half-way is never handed out as a solution (seed C05-14)
         import core, c12, c14
-        ctx.guard("core" + tag, core.verdict, ctx, crate, crs, tag)      # see rules/core.py
+        ctx.guard("core" + tag, core.soundness, ctx, crate, crs, tag)      # see rules/core.py
         ctx.guard("result-must-use" + tag, c12.results_used, ctx, crate, tag)
         ctx.guard("soft-loop" + tag, c14.soft_loop, ctx, crate, crs, tag)
 
